@@ -94,14 +94,14 @@ def one_history(ctx, hno, steps):
             line = "size %d" % v
             bi.size = v
             exp_c, exp_s = before[:v], v
-            ctx.nontriv(("size", v < len(before), v == len(before)))
+            ctx.nontriv(("size", v < len(before), v == len(before), min(len(before), 4), min(v, 5), v < bsize))
         elif r < 0.7:
             v = rng.randrange(0, min(bi.size, 14) + 1)
             line = "init %d" % v
             bi.initialized_size = v
             exp_c = before[:v] + b"\0" * max(0, v - len(before))
             exp_s = bsize
-            ctx.nontriv(("init", v < len(before), v == len(before)))
+            ctx.nontriv(("init", v < len(before), v == len(before), min(len(before), 4), min(v, 5), v == bsize))
         elif r < 0.9 and len(before):
             i = rng.randrange(len(before))
             b = rng.randrange(256)
@@ -109,7 +109,7 @@ def one_history(ctx, hno, steps):
             bi.contents[i] = b
             exp_c = before[:i] + bytes([b]) + before[i + 1:]
             exp_s = bsize
-            ctx.nontriv(("poke", i == 0, i == len(before) - 1))
+            ctx.nontriv(("poke", i == 0, i == len(before) - 1, min(len(before), 4)))
         else:
             # address edits do not touch the storage
             bi.address = rng.choice([None, 0, 7, 2**64 - 8])
